@@ -598,6 +598,24 @@ def setup():
     core.freeze()
 
 
+def two_faced_equals(rng, g):
+    """`equals` is two operators: = (priority 50) at other types and <--> (priority 25) at bool.  Terms that contain
+    both, in either order, under &, |, --> and on either side of another equivalence"""
+    T1 = rng.choice([NAT, NAT, REAL, a_])
+    eq = lambda T, a, b: S.mk_comb(('const', 'equals', S.funs(T, T, B)), a, b)
+    bin_ = lambda op, a, b: S.mk_comb(('const', op, S.funs(B, B, B)), a, b)
+    num_eq = eq(T1, g.gen(T1, rng.choice([0, 1])), g.gen(T1, rng.choice([0, 1])))
+    iff = eq(B, g.gen(B, rng.choice([0, 0, 1])), g.gen(B, rng.choice([0, 0, 1])))
+    first, second = (num_eq, iff) if rng.random() < 0.6 else (iff, num_eq)
+    op = rng.choice(['conj', 'disj', 'implies', 'iff', 'iff'])
+    t = eq(B, first, second) if op == 'iff' else bin_(op, first, second)
+    if rng.random() < 0.3:
+        t = bin_(rng.choice(['conj', 'disj']), g.gen(B, 0), t)
+    if rng.random() < 0.2:
+        t = ('comb', ('const', 'neg', S.fun(B, B)), t)
+    return t
+
+
 def run_gen(ctx, spec):
     rng = ctx.rng
     sig = build_sig()
@@ -607,9 +625,13 @@ def run_gen(ctx, spec):
                   weights={'const': 8, 'atom': 3, 'app': 1, 'abs': 2})
         g.clash_bias = 0.45
         T = g.rand_type() if rng.random() < 0.5 else B
-        if rng.random() < 0.15:
+        r_ = rng.random()
+        if r_ < 0.15:
             s = binder_chain(rng)
             ctx.count('binder_chains')
+        elif r_ < 0.22:
+            s = two_faced_equals(rng, g)
+            ctx.count('two_faced_equals_terms')
         else:
             s = g.gen(T, rng.choice([1, 2, 2, 3, 3, 4]))
         if not term_ok(s):
